@@ -1,9 +1,10 @@
 (* C04 — tar <-> SquashFS conversion preserves the archive.  Statements only;
    every proof is one [exact] of a lemma from coq/C04/*Proofs.v.
 
-   The models follow /repo with the four repairs of props/C04/fixes applied
-   (F21 --root-becomes retarget, F22 extension records of skipped entries,
-   F23 PAX xattr order, F24 sparse data beyond the file size). *)
+   The models follow /repo as it is with the four repairs of props/C04/fixes
+   applied (F21 --root-becomes retarget, F22 extension records of skipped
+   entries, F23 sqfs2tar reverses the xattr list because the tar reader builds
+   its list back to front, F24 sparse data beyond the file size). *)
 From Coq Require Import List NArith ZArith Bool.
 From SqfsV Require Import Gen.Constants C04.GenC04 C04.TarNum C04.TarNumProofs C04.TarHdr C04.TarHdrProofs
      C04.TarStream C04.TarStreamProofs C04.TarArchiveProofs C18.CanonModel.
@@ -82,13 +83,28 @@ Print Assumptions checksum_field_rt.
    three number encodings the fields need, how many xattrs there are):
    read_header consumes exactly the bytes write_tar_header produced — GNU 'K'
    and 'L' records, the SCHILY.xattr PAX record, the header block — and
-   delivers the entry; whatever follows in the stream is left untouched. *)
+   delivers the entry; whatever follows in the stream is left untouched.
+   The xattr list comes back REVERSED: write_tar_header emits the records in
+   list order, read_pax_header prepends each record to its list. *)
 Theorem header_rt : forall e target xs counter rest b,
   wf_entry e target xs ->
   write_tar_header e target xs counter = W_Ok b ->
-  read_header (b ++ rest) = RH_Ok (decoded_of e target xs) rest.
-Proof. exact header_rt_l. Qed.
+  read_header (b ++ rest) = RH_Ok (decoded_of e target xs) rest /\
+  d_xattr (decoded_of e target xs) = (if e_hardlink e then [] else rev xs).
+Proof. exact header_rt_full. Qed.
 Print Assumptions header_rt.
+
+(* ... which is why sqfs2tar's write_entry reverses the list it read from the
+   image (fix F23): one entry through write_entry and read_header has its
+   xattrs in the image's order again *)
+Theorem entry_rt : forall t counter rest b,
+  wf_entry (te_e t) (te_target t) (te_xattr t) ->
+  write_entry_hdr t counter = W_Ok b ->
+  exists d, read_header (b ++ rest) = RH_Ok d rest /\
+            d = decoded_of (te_e t) (te_target t) (rev (te_xattr t)) /\
+            d_xattr d = (if e_hardlink (te_e t) then [] else te_xattr t).
+Proof. exact entry_rt_l. Qed.
+Print Assumptions entry_rt.
 
 (* the decoded mode of a non-link is the entry's mode *)
 Theorem header_rt_mode : forall m, m < 65536 -> perm m + ftype m = m.
@@ -156,13 +172,50 @@ Theorem archive_len_512 : forall es,
 Proof. exact archive_len_512_l. Qed.
 Print Assumptions archive_len_512.
 
-(* the tar iterator reads back every written entry — metadata, link target,
-   xattrs in order, file contents — skips nothing, invents nothing, and stops
-   at the terminator; entries tar cannot express are absent *)
+(* the tar iterator reads back every entry sqfs2tar wrote — metadata, link
+   target, xattrs in the order the image stores them, file contents — skips
+   nothing, invents nothing, and stops at the terminator; entries tar cannot
+   express are absent *)
 Theorem archive_rt : forall es,
   Forall entry_ok es -> read_archive (write_archive es) = RA_Ok (views es).
 Proof. exact archive_rt_l. Qed.
 Print Assumptions archive_rt.
+
+Theorem archive_rt_xattr_order : forall t,
+  te_xattr (view t) = (if e_hardlink (te_e t) then [] else te_xattr t).
+Proof. exact view_xattr. Qed.
+
+(* ---- the conversion fixpoint (sqfs2tar writes, the tar iterator reads,
+        tar2sqfs stores: [convert]) ---- *)
+
+(* an image whose entries have the shape tar2sqfs gives them (img_shape:
+   canonical names, directories with sqfs2tar's trailing '/', 32-bit time
+   stamps, links with mode 0777, nothing tar cannot express) converts to an
+   image from which sqfs2tar writes the same archive, byte for byte *)
+Theorem conv_fixpoint : forall es,
+  Forall entry_ok es -> Forall img_shape es ->
+  exists es', convert es = RA_Ok es' /\ write_archive es' = write_archive es.
+Proof. exact conv_fixpoint_l. Qed.
+Print Assumptions conv_fixpoint.
+
+(* ... and ANY image (names shorter than TAR_MAX_PATH_LEN) has that shape
+   after one round: the second conversion reproduces the first *)
+Theorem conv_second_round : forall es,
+  Forall entry_ok es -> Forall short_name es ->
+  exists es1 es2, convert es = RA_Ok es1 /\ convert es1 = RA_Ok es2 /\
+                  write_archive es2 = write_archive es1.
+Proof. exact conv_second_round_l. Qed.
+Print Assumptions conv_second_round.
+
+(* Without the reversal in sqfs2tar (the code before fix F23) this is false:
+   a file with the two xattrs user.a, user.b converts to the image with
+   user.b, user.a and back, the two archives differ — period 2. *)
+Theorem conv_fixpoint_old_refuted :
+  Forall entry_ok osc_a /\ Forall img_shape osc_a /\
+  convert_old osc_a = RA_Ok osc_b /\ convert_old osc_b = RA_Ok osc_a /\
+  write_archive_old osc_b <> write_archive_old osc_a.
+Proof. exact old_sqfs2tar_oscillates. Qed.
+Print Assumptions conv_fixpoint_old_refuted.
 
 (* ---- tar2sqfs --root-becomes link retargeting (fix F21) ---- *)
 Theorem retarget_keeps_foreign_targets : forall root link,
@@ -218,6 +271,21 @@ Example ex_header_rt :
   | W_Unsupported => False
   end.
 Proof. vm_compute. reflexivity. Qed.
+(* the two xattrs come back in the opposite order ... *)
+Example ex_header_rt_xattr :
+  d_xattr (decoded_of ex_entry (Some ex_target) ex_xattrs) =
+  [([117;115;101;114;46;98], []); ([117;115;101;114;46;97], [1;0;61;10;255])].
+Proof. vm_compute. reflexivity. Qed.
+(* ... and in the image's order through sqfs2tar's write_entry *)
+Example ex_entry_rt :
+  match write_entry_hdr (mkte ex_entry (Some ex_target) ex_xattrs []) 7 with
+  | W_Ok b => match read_header (b ++ [1;2;3]) with
+              | RH_Ok d rest => d_xattr d = ex_xattrs /\ rest = [1;2;3]
+              | _ => False
+              end
+  | W_Unsupported => False
+  end.
+Proof. vm_compute. split; reflexivity. Qed.
 
 Example ex_wf : wf_entry ex_entry (Some ex_target) ex_xattrs.
 Proof.
@@ -271,6 +339,55 @@ Proof. vm_compute. reflexivity. Qed.
 Example ex_archive_names :
   map (fun t => e_name (te_e t)) (views ex_archive) = [[100]; [100;47;102]].
 Proof. vm_compute. reflexivity. Qed.
+
+(* an image as tar2sqfs writes it: directory, file with two xattrs, symlink,
+   hard link; it satisfies the hypotheses of conv_fixpoint and is a fixpoint *)
+Definition ex_image : list tentry :=
+  [mkte (mkentry [100;47] (S_IFDIR + 493) 0 0 0 0%Z 0 false) None [] [];
+   mkte (mkentry [100;47;102] (S_IFREG + 420) 1000 1000 3 1700000000%Z 0 false) None [x_user_a; x_user_b] [104;105;10];
+   mkte (mkentry [100;47;108] (S_IFLNK + 511) 0 0 1 7%Z 0 false) (Some [102]) [x_user_b] [];
+   mkte (mkentry [100;47;104] (S_IFLNK + 511) 1000 1000 0 1700000000%Z 0 true) (Some [100;47;102]) [] []].
+Example ex_image_ok : forallb entry_okb ex_image && forallb img_shapeb ex_image = true.
+Proof. vm_compute. reflexivity. Qed.
+Example ex_image_hyps : Forall entry_ok ex_image /\ Forall img_shape ex_image.
+Proof.
+  split; apply Forall_forall; intros t Ht;
+    [apply entry_okb_sound|apply img_shapeb_sound];
+    cbn [ex_image In] in Ht; repeat (destruct Ht as [<-|Ht]; [vm_compute; reflexivity|]); contradiction.
+Qed.
+Example ex_image_fixpoint :
+  match convert ex_image with
+  | RA_Ok es' => write_archive es' = write_archive ex_image
+  | _ => False
+  end.
+Proof. vm_compute. reflexivity. Qed.
+(* an image that is not in that shape (name with "./" and "//", symlink mode
+   0755, time stamp beyond 32 bit, a socket): the first round changes the
+   archive, the second does not *)
+Definition ex_rough : list tentry :=
+  [mkte (mkentry [46;47;100;47;47;102] (S_IFREG + 420) 0 0 2 8589934592%Z 0 false) None [x_user_a; x_user_b] [1;2];
+   mkte (mkentry [115] (S_IFSOCK + 420) 0 0 0 0%Z 0 false) None [] [];
+   mkte (mkentry [108] (S_IFLNK + 493) 0 0 1 (-3)%Z 0 false) (Some [102]) [] []].
+Example ex_rough_hyps : Forall entry_ok ex_rough /\ Forall short_name ex_rough.
+Proof.
+  split; apply Forall_forall; intros t Ht; cbn [ex_rough In] in Ht.
+  - apply entry_okb_sound. repeat (destruct Ht as [<-|Ht]; [vm_compute; reflexivity|]). contradiction.
+  - repeat (destruct Ht as [<-|Ht]; [vm_compute; reflexivity|]). contradiction.
+Qed.
+Example ex_rough_rounds :
+  match convert ex_rough with
+  | RA_Ok es1 =>
+    list_eqb (write_archive es1) (write_archive ex_rough) = false /\
+    match convert es1 with
+    | RA_Ok es2 => write_archive es2 = write_archive es1
+    | _ => False
+    end
+  | _ => False
+  end.
+Proof. vm_compute. split; reflexivity. Qed.
+(* the repaired sqfs2tar on the witness of conv_fixpoint_old_refuted *)
+Example ex_osc_fixed : convert osc_a = RA_Ok osc_a.
+Proof. exact new_sqfs2tar_stable. Qed.
 
 (* --root-becomes r: "r/b/f" -> "/b/f", "../x" and "/etc" stay *)
 Example ex_retarget_1 : retarget [114] [114;47;98;47;102] = [47;98;47;102].
